@@ -44,7 +44,7 @@ _state = {}
 # ---------------------------------------------------------------------------
 
 class A(object):
-    pass
+    ready = True        # what a value-dependent validator of the host looks at
 
 
 class B(A):
@@ -77,6 +77,10 @@ def type_from_spec(ts):
     k = ts[0]
     if k == 'py':
         return T.PythonType(LATTICE[ts[1]], bool(ts[2]))
+    if k == 'pyv':
+        # a host type whose validator looks at the VALUE, not at its class
+        return T.PythonType(LATTICE[ts[1]], False,
+                            validators=[lambda v: bool(v.ready)])
     if k == 'int':
         return T.Integer()
     if k == 'pyint':
@@ -99,7 +103,10 @@ def type_from_spec(ts):
 def value_from_spec(vs):
     k = vs[0]
     if k in LATTICE:
-        return LATTICE[k]()
+        v = LATTICE[k]()
+        if len(vs) > 1:
+            v.ready = bool(vs[1])
+        return v
     if k == 'int':
         return vs[1]
     if k == 'str':
@@ -117,9 +124,11 @@ def value_from_spec(vs):
 
 TYPE_POOL = [['py', 'A', 0], ['py', 'A', 0], ['py', 'B', 0], ['py', 'B', 0],
              ['py', 'C', 0], ['py', 'C', 0], ['py', 'D', 0], ['py', 'E', 0],
-             ['py', 'A', 1], ['py', 'B', 1], ['int'], ['pyint'], ['num'],
+             ['py', 'A', 1], ['py', 'B', 1], ['pyv', 'B'], ['pyv', 'D'],
+             ['int'], ['pyint'], ['num'],
              ['str'], ['obj'], ['obj'], ['iter'], ['seq']]
 VALUE_POOL = [['A'], ['B'], ['C'], ['D'], ['D'], ['D'], ['E'], ['F'], ['F'],
+              ['D', 0], ['D', 1], ['F', 0], ['B', 0],
               ['int', 1],
               ['str', 'x'], ['bool', 1], ['none'], ['float'], ['list']]
 
